@@ -16,7 +16,7 @@ from fractions import Fraction
 from common import *
 import cert
 from cert import Cx, Const, atoms_instance
-from props.c14e import tup_of, val_of, dy_pair, from_pair, rdy, ulp_of, round_to, pi_fr, fin, small_text
+from props.c14e import load_known_b4, tup_of, val_of, dy_pair, from_pair, rdy, ulp_of, round_to, pi_fr, fin, small_text
 
 FNS = ["abs", "exp", "log", "cos", "sin"]
 
@@ -153,8 +153,9 @@ def excess_class(ctx_prec, fn, u, v, out):
 def run_elementary(rep, tier_, rng, budget=None):
     """-> dict of coverage counters (merged by props/c15.py); violations via rep.violation with {"fn": "ivmpc.<f>", "regime": ...}"""
     from mpmath import iv
+    load_known_b4(rep)
     t0 = time.time()
-    budget = budget or (70 if tier_ == "quick" else 600)
+    budget = budget or (90 if tier_ == "quick" else 600)
     n = 30 if tier_ == "quick" else 400
     n_int = 2 if tier_ == "quick" else 4
     precs = [24, 53, 100] if tier_ == "quick" else [24, 53, 100, 200]
